@@ -199,6 +199,12 @@ func c51Run(t *testing.T, mgmt *e2e.ManagementServer, steps []c51Step, id int, t
 	cc := &c51CC{ch: make(chan struct{}, 1)}
 	var r resolver.Resolver
 	tr.Emit(map[string]any{"ev": "reset", "b": id})
+	defer func() {
+		// a panic of the code under test (SelectConfig / OnCommitted run on this goroutine) is an event
+		if x := recover(); x != nil {
+			tr.Emit(map[string]any{"ev": "panic", "what": fmt.Sprint(x)})
+		}
+	}()
 	rpcs := map[int]*iresolver.RPCConfig{}
 	for _, st := range steps {
 		sort.Ints(st.Exp)
